@@ -75,9 +75,9 @@ fn ext_from_dispatch(table: &[(u32, Vec<u32>)], s: &mut String) {
 
     // ---- fixed_to_float!: From<Fixed> for f32 (8/16-bit sources) and f64 (8/16/32-bit sources), every Frac of the typed table
     s.push_str("macro_rules! sfx_dispatch_ffrom {\n    ($fty:expr, $s:expr, $n:expr, $f:expr, $run:ident ( $($arg:expr),* )) => {\n        match ($fty, $s, $n, $f) {\n");
-    for (fty, maxn) in [("f32", 16u32), ("f64", 32u32)] {
+    for (fty, ftyname, maxn) in [("f32", "f32", 16u32), ("f64", "f64", 32u32), ("f16", "half::f16", 8u32)] {   // the f16 row is cfg(feature = "f16")
         for (n, fs_) in table { if *n <= maxn { for f in fs_ { for sg in [false, true] {
-            s.push_str(&format!("            (\"{}\", {}, {}, {}) => $run::<{}, {}>($($arg),*),\n", fty, sg, n, f, tyname(sg, *n, *f), fty));
+            s.push_str(&format!("            (\"{}\", {}, {}, {}) => $run::<{}, {}>($($arg),*),\n", fty, sg, n, f, tyname(sg, *n, *f), ftyname));
         } } } }
     }
     s.push_str("            _ => \"SKIP\".to_string(),\n        }\n    };\n}\n");
